@@ -6,7 +6,7 @@
    PreprocessDeclarationsPrelude, GetAllComputedStyles after the repairs
    5fe51d0, 44a9070, 5f1d923); specification: Css/CascadeSpec.v.
    Check/C03.v ties the model to /repo on every run. *)
-From Verif Require Import Css.Cascade Css.CascadeSpec Css.CascadeProofs.
+From Verif Require Import Css.Cascade Css.CascadeSpec Css.CascadeProofs Css.CascadeImport Css.CascadeImportProofs.
 From Coq Require Import List NArith Bool.
 Import ListNotations.
 Open Scope N_scope.
@@ -225,4 +225,77 @@ Definition ex_doc4 : document :=
 Example C03_pseudo_element_cascade :
   doc_no_top_amp ex_doc4 = true /\ used ex_doc4 1 [ex_p] 0 = Some 32 /\ used ex_doc4 0 [ex_p] 0 = Some 12 /\
   used ex_doc4 2 [ex_p] 0 = None.
+Proof. vm_compute. repeat split. Qed.
+
+(* 7. @import by URL (Css/CascadeImport.v): sheets name their imports, the
+   fetcher is the table of what each URL serves, guardImportCycle removes the
+   URL of the sheet being loaded from the table handed to THAT sheet.
+   preprocessStylesheet = flattening of the sheet in which every @import is
+   replaced by the sheet it serves (css-cascade-4 2: "as if written in place of
+   the @import rule"); an @import that closes a cycle is dropped *)
+Theorem C03_import_substitution : forall device e rs,
+  flatten_env device e rs = flatten_rules device (expand_env e rs) false.
+Proof. exact flatten_env_expand. Qed.
+Print Assumptions C03_import_substitution.
+
+(* the number of URLs served bounds the nesting depth: the fuel of the model is
+   not a truncation *)
+Theorem C03_import_depth_bounded : forall fuel device e rs,
+  (length e <= fuel)%nat -> flatten_u fuel device e rs false = flatten_env device e rs.
+Proof. exact flatten_u_fuel. Qed.
+Print Assumptions C03_import_depth_bounded.
+
+(* what one @import contributes does not depend on the @import rules before or
+   after it: the following rules are processed with the importing sheet's own
+   fetcher (the guard does not leak to the siblings) *)
+Theorem C03_import_contribution : forall k device e q u rest,
+  flatten_u (S k) device e (UImport q u rest) false =
+  (if evaluate_media q device
+   then match fetch e u with
+        | Some sh => flatten_u k device (guard e u) sh false
+        | None => []
+        end
+   else [])
+  ++ flatten_u (S k) device e rest false.
+Proof. exact import_contribution. Qed.
+Print Assumptions C03_import_contribution.
+
+(* `@import a; @import b; @import a`: the rules of a stand after those of b *)
+Theorem C03_same_url_imported_twice : forall k device e u v,
+  let a := match fetch e u with Some sh => flatten_u k device (guard e u) sh false | None => [] end in
+  let b := match fetch e v with Some sh => flatten_u k device (guard e v) sh false | None => [] end in
+  flatten_u (S k) device e (UImport [] u (UImport [] v (UImport [] u UNil))) false = a ++ b ++ a.
+Proof. exact import_twice. Qed.
+Print Assumptions C03_same_url_imported_twice.
+
+(* inside the sheet served for u (and the sheets it imports) an @import of u is
+   dropped; every other URL is served as before *)
+Theorem C03_import_cycle_dropped : forall fuel device e u q rest,
+  flatten_u fuel device (guard e u) (UImport q u rest) false = flatten_u fuel device (guard e u) rest false.
+Proof. exact import_cycle_dropped. Qed.
+Print Assumptions C03_import_cycle_dropped.
+
+Theorem C03_import_guard_other_urls : forall e u v, v <> u -> fetch (guard e u) v = fetch e v.
+Proof. exact import_guard_other_urls. Qed.
+Print Assumptions C03_import_guard_other_urls.
+
+(* the main theorem for documents whose sheets import by URL *)
+Theorem C03_cascade_with_url_imports : forall d pseudo path p,
+  doc_no_top_amp (expand_doc d) = true ->
+  used (expand_doc d) pseudo path p = cascaded (expand_doc d) pseudo path p.
+Proof. exact cascade_udoc_spec. Qed.
+Print Assumptions C03_cascade_with_url_imports.
+
+(* non-vacuity: a.css (1) imports itself and b.css (2); the sheet imports a, b, a:
+   the declaration of a (31) wins over that of b (32) *)
+Definition ex_env : env :=
+  [(1, UImport [] 1 (UImport [] 2 (UStyle [STag 1] (BDecl (mkDecl 0 31 false) BNil) UNil)));
+   (2, UStyle [STag 1] (BDecl (mkDecl 0 32 false) BNil) UNil)].
+Definition ex_udoc : udocument :=
+  mkUDoc 1 false UNil 1 UNil 1
+    [mkUAuthor [] (UImport [] 1 (UImport [] 2 (UImport [] 1 UNil)))] [] ex_env.
+Example C03_import_twice_in_action :
+  doc_no_top_amp (expand_doc ex_udoc) = true /\
+  used (expand_doc ex_udoc) 0 [mkNode 1 None [] [] []] 0 = Some 31 /\
+  length (flatten_env 1 ex_env (UImport [] 1 (UImport [] 2 (UImport [] 1 UNil)))) = 5%nat.
 Proof. vm_compute. repeat split. Qed.
